@@ -726,9 +726,19 @@ def parse_model(model: str, *, check_syntax: bool = True) -> List[Symbol]:
 
                     # Check for exceptions when trying to compile (but never
                     # run) the current equation
+                    # (besides `SyntaxError`, `compile()` reports source it
+                    # cannot handle - null bytes, expressions nested too deeply
+                    # for the parser or the compiler - as `ValueError`,
+                    # `RecursionError`, `MemoryError` or `OverflowError`)
                     try:
                         compile(e, '<string>', 'exec')
-                    except SyntaxError:
+                    except (
+                        SyntaxError,
+                        ValueError,
+                        RecursionError,
+                        MemoryError,
+                        OverflowError,
+                    ):
                         problem_statements.append((i, statement, e))
                         break
 
